@@ -980,6 +980,21 @@ func (this *encodingTask) encode(res *encodingTaskResult) {
 	obs.Close()
 	written := obs.Written()
 
+	if nbBytes := int((written + 7) >> 3); nbBytes <= cap(data) {
+		// The local bitstream has filled the backing array of data
+		data = data[0:cap(data)]
+	} else {
+		// The entropy coder expanded the block beyond the buffer (incompressible data
+		// and a codec with large headers): the local stream has moved its content
+		// to a bigger buffer, get it from there.
+		data = make([]byte, nbBytes)
+
+		if _, err := io.ReadFull(bufStream, data); err != nil {
+			res.err = &IOError{msg: err.Error(), code: kanzi.ERR_PROCESS_BLOCK}
+			return
+		}
+	}
+
 	if len(this.listeners) > 0 {
 		// Notify after entropy
 		evt := kanzi.NewEvent(kanzi.EVT_AFTER_ENTROPY, int(this.currentBlockID),
